@@ -91,10 +91,16 @@ func SpecCutReplace(entry, match, replacement string) string {
 //@   loop 1 invariant[C06] 0 <= scanPos(scanner) && scanPos(scanner) <= len(scanLines(scanner))
 //@   loop 1 invariant[C06] forallStr(func(k string) bool { return mapHas(includeMap, k) == (atLoopEntry(mapHas(includeMap, k)) && forall(0, scanPos(scanner), func(j int) bool { return scanLines(scanner)[j] != k })) })
 
+// buildinclusionLineMap: the order value stored for an entry is a POSITION at which that
+// entry stands in the include file (so different entries never share an order value, and
+// sorting by it restores F's relative order whatever the map iteration did).
 //@ contract buildinclusionLineMap
-//@   tags C17 C19
+//@   tags C17 C19 C06
 //@   opt scan-complete C17
 //@   results m defs
+//@   loop 0 invariant[C06] 0 <= scanPos(includeScanner) && scanPos(includeScanner) <= len(scanLines(includeScanner)) && index == scanPos(includeScanner)
+//@   loop 0 invariant[C06] forallStr(func(k string) bool { return implies(mapHas(includeMap, k), 0 <= includeMap[k].order && includeMap[k].order < scanPos(includeScanner) && scanLines(includeScanner)[includeMap[k].order] == k && includeMap[k].line == k) })
+//@   checks[C06] order-is-a-position-of-the-entry: forallStr(func(k string) bool { return implies(mapHas(m, k), 0 <= m[k].order && m[k].order < len(scanLines(includeScanner)) && scanLines(includeScanner)[m[k].order] == k && m[k].line == k) })
 
 // ---- C05: includes -----------------------------------------------------------------------------
 // buildIncludeString: the included file is parsed with NO definitions of the including file
